@@ -3,6 +3,7 @@ package checks
 import (
 	"encoding/json"
 	"fmt"
+	"github.com/gittuf/gittuf/internal/verifharness/keys"
 	"os"
 	"os/exec"
 	"path/filepath"
@@ -69,6 +70,11 @@ type c17Case struct {
 // one client operation; returns the number assigned to its (last) entry
 func c17RunOp(kind string, client int, b scen.Backend, base []githash.Hash) (uint64, error) {
 	switch kind {
+	case "ref-key":
+		// the developer-mode writer: signs with a provided key (CommitUsingSpecificKey)
+		e := rsl.NewReferenceEntry(fmt.Sprintf("refs/heads/c%d", client), base[0])
+		err := e.CommitUsingSpecificKey(b, keys.Get("k1").PEM)
+		return e.Number, err
 	case "ref":
 		e := rsl.NewReferenceEntry(fmt.Sprintf("refs/heads/c%d", client), base[0])
 		err := e.Commit(b, false)
@@ -372,6 +378,58 @@ func c17RawEntries(store *scen.Mem) []c17Raw {
 	return out
 }
 
+// c17RawEntriesGit lists the log of a real repository without judging it
+// (first-parent walk over the raw commit messages).
+func c17RawEntriesGit(g *scen.Git) []c17Raw {
+	out := []c17Raw{}
+	txt, err := g.Run(nil, nil, "log", "--first-parent", "--format=%H%x00%P%x00%B%x01", rsl.Ref)
+	if err != nil {
+		return out
+	}
+	for _, rec := range strings.Split(txt, "\x01") {
+		rec = strings.TrimLeft(rec, "\n")
+		parts := strings.SplitN(rec, "\x00", 3)
+		if len(parts) != 3 {
+			continue
+		}
+		w, perr := parseWalked(parts[0], parts[2], len(strings.Fields(parts[1])))
+		if perr != nil {
+			continue
+		}
+		msg := ""
+		if j := strings.Index(parts[2], "-----BEGIN MESSAGE-----\n"); j >= 0 {
+			body := parts[2][j+len("-----BEGIN MESSAGE-----\n"):]
+			if k := strings.Index(body, "\n-----END"); k >= 0 {
+				body = body[:k]
+			}
+			msg = decodeB64(strings.ReplaceAll(body, "\n", ""))
+		}
+		out = append(out, c17Raw{Kind: w.Kind, Ref: w.Ref, Msg: msg})
+	}
+	return out
+}
+
+// c17GitShim puts a wrapper named git first on PATH. The wrapper sleeps for
+// $VERIF_GIT_SHIM_DELAY seconds before every `git update-ref`, which widens the
+// window between a writer reading a reference and updating it (the suspension
+// point between two git processes of one storage call) so that concurrent
+// writers reliably overlap there. Without the variable it execs git at once.
+func c17GitShim(c *fw.Ctx) error {
+	real, err := exec.LookPath("git")
+	if err != nil {
+		return err
+	}
+	dir := c.Scratch("c17-shim")
+	if err := os.MkdirAll(dir, 0o755); err != nil {
+		return err
+	}
+	script := "#!/bin/bash\nif [ -n \"$VERIF_GIT_SHIM_DELAY\" ]; then for a in \"$@\"; do if [ \"$a\" = update-ref ]; then sleep \"$VERIF_GIT_SHIM_DELAY\"; break; fi; done; fi\nexec " + real + " \"$@\"\n"
+	if err := os.WriteFile(filepath.Join(dir, "git"), []byte(script), 0o755); err != nil {
+		return err
+	}
+	return os.Setenv("PATH", dir+":"+os.Getenv("PATH"))
+}
+
 // c17Shape classifies the interleaving: "stale-number-read" when some client
 // read the log tip for numbering before another client's commit to the log and
 // committed after it.
@@ -439,8 +497,21 @@ func runC17(c *fw.Ctx) {
 
 func c17RealGit(c *fw.Ctx, rounds int, hist *os.File) {
 	r := c.Rand(uint64(1700 + c.Shard))
-	kinds := []string{"ref", "ref", "annot", "staging"}
+	shim := c17GitShim(c) == nil
+	defer os.Unsetenv("VERIF_GIT_SHIM_DELAY")
 	for round := 0; round < rounds; round++ {
+		// round flavours: (start state) x (writer kind) x (update-ref delay)
+		fl := round + c.Shard // quick runs one or two rounds per worker: vary the flavour across workers
+		emptyStart := fl%3 == 1
+		delayed := shim && fl%4 != 3
+		kinds := []string{"ref", "ref", "annot", "staging", "ref-key"}
+		if fl%3 == 2 {
+			kinds = []string{"ref-key", "ref-key", "ref"}
+		}
+		if emptyStart {
+			kinds = []string{"ref", "ref", "ref-key", "staging"}
+		}
+		os.Unsetenv("VERIF_GIT_SHIM_DELAY")
 		g, cleanup, err := newScratchGit(c, "c17")
 		if err != nil {
 			c.Inconclusive("git init")
@@ -449,12 +520,14 @@ func c17RealGit(c *fw.Ctx, rounds int, hist *os.File) {
 		c0, _ := g.CommitFiles(map[string]string{"f": "0"}, nil, "c0", nil)
 		ids := []githash.Hash{c0}
 		ok := true
-		for i := 0; i < 2; i++ {
-			id, err := scen.RecordEntry(g, "refs/heads/base", c0, "")
-			if err != nil {
-				ok = false
+		if !emptyStart {
+			for i := 0; i < 2; i++ {
+				id, err := scen.RecordEntry(g, "refs/heads/base", c0, "")
+				if err != nil {
+					ok = false
+				}
+				ids = append(ids, id)
 			}
-			ids = append(ids, id)
 		}
 		if !ok {
 			cleanup()
@@ -465,6 +538,9 @@ func c17RealGit(c *fw.Ctx, rounds int, hist *os.File) {
 		ops := make([]string, n)
 		for i := range ops {
 			ops[i] = kinds[r.IntN(len(kinds))]
+		}
+		if delayed {
+			os.Setenv("VERIF_GIT_SHIM_DELAY", "0.25")
 		}
 		results := make([]c17Result, n)
 		var wg sync.WaitGroup
@@ -488,10 +564,16 @@ func c17RealGit(c *fw.Ctx, rounds int, hist *os.File) {
 		}
 		close(start)
 		wg.Wait()
+		os.Unsetenv("VERIF_GIT_SHIM_DELAY")
 		c.Eval(1)
 		c.Nontrivial(fw.Hash("real", c.Shard, round))
-		cs := c17Case{Ops: ops, Schedule: nil, Trace: []string{"real git, goroutines with separate repository handles"}}
+		flavour := fmt.Sprintf("real git, goroutines with separate repository handles; start=%s update-ref-delay=%v", map[bool]string{true: "empty-log", false: "two-entries"}[emptyStart], delayed)
+		cs := c17Case{Ops: ops, Schedule: nil, Trace: []string{flavour}}
+		c.Count("real_git:"+flavour[strings.Index(flavour, "start="):], 1)
 		glog, werr := walkLogGit(g)
+		if emptyStart && werr != nil && strings.Contains(werr.Error(), "reference-state-log") && len(c17RawEntriesGit(g)) == 0 {
+			werr = nil // every writer failed on the empty log: nothing was written
+		}
 		nums := map[uint64]int{}
 		okCount := 0
 		for i, res := range results {
@@ -527,10 +609,46 @@ func c17RealGit(c *fw.Ctx, rounds int, hist *os.File) {
 			c.Violation(kind, map[string]string{"shape": shape}, fmt.Sprintf("real git, concurrent %v: %v (results %+v)", ops, werr, results), cs)
 			c.Count("real_git:collisions", 1)
 		} else {
-			if _, _, err := rsl.GetFirstEntry(g); err != nil {
-				c.Violation("reader-cannot-walk", map[string]string{"shape": "other"}, "real git: rsl.GetFirstEntry fails: "+err.Error(), cs)
+			if okCount > 0 {
+				if _, _, err := rsl.GetFirstEntry(g); err != nil {
+					c.Violation("reader-cannot-walk", map[string]string{"shape": "other"}, "real git: rsl.GetFirstEntry fails: "+err.Error(), cs)
+				}
 			}
 			c.Count("real_git:clean_rounds", 1)
+		}
+		// exactly-once / no-trace, read from the raw log (also when the numbering is broken)
+		raw := c17RawEntriesGit(g)
+		okStaging, staged := 0, 0
+		for _, e := range raw {
+			if e.Kind == "reference" && e.Ref == "refs/gittuf/policy-staging" {
+				staged++
+			}
+		}
+		for i, res := range results {
+			if ops[i] == "staging" {
+				if res.Err == "" {
+					okStaging++
+				}
+				continue
+			}
+			count := 0
+			for _, e := range raw {
+				if e.Kind == "reference" && e.Ref == fmt.Sprintf("refs/heads/c%d", i) && ops[i] != "annot" {
+					count++
+				}
+				if e.Kind == "annotation" && e.Msg == fmt.Sprintf("ann-c%d", i) && ops[i] == "annot" {
+					count++
+				}
+			}
+			if res.Err == "" && count != 1 {
+				c.Violation("acknowledged-entry-missing-or-duplicated", map[string]string{"count": fmt.Sprint(count), "op": ops[i], "backend": "real-git"}, fmt.Sprintf("real git, concurrent %v (%s): writer %d (%s) returned nil but its entry occurs %d times in the log", ops, flavour, i, ops[i], count), cs)
+			}
+			if res.Err != "" && count != 0 {
+				c.Violation("failed-operation-left-entry", map[string]string{"op": ops[i], "backend": "real-git"}, fmt.Sprintf("real git, concurrent %v: writer %d (%s) failed (%s) but its entry is in the log", ops, i, ops[i], res.Err), cs)
+			}
+		}
+		if staged < okStaging {
+			c.Violation("acknowledged-entry-missing-or-duplicated", map[string]string{"count": fmt.Sprint(staged), "op": "staging", "backend": "real-git"}, fmt.Sprintf("real git: %d staging commits returned nil, %d staging entries in the log", okStaging, staged), cs)
 		}
 		c.Count(fmt.Sprintf("real_git:ops_succeeded=%d_of_%d", okCount, n), 1)
 		cleanup()
@@ -538,7 +656,7 @@ func c17RealGit(c *fw.Ctx, rounds int, hist *os.File) {
 }
 
 func raceC17(c *fw.Ctx) {
-	c17RealGit(c, c.Pick(6, 100)/c.NShards+1, nil)
+	c17RealGit(c, c.Pick(8, 200)/c.NShards+1, nil)
 }
 
 // postC17 runs porcupine over the histories the shards recorded.
